@@ -96,6 +96,11 @@ type Engine struct {
 	cs             *Contracts
 	funcs          map[string]*ssa.Function // by contract-style name
 	readOwnedCache map[string]bool
+	loopsHit       map[string]bool
+	calledFns      map[*ssa.Function]bool
+	replayInfo     map[string]*ReplayInfo
+	repoDir        string
+	curExit        *ExitInfo
 	fnName         map[*ssa.Function]string
 	decls          []string
 	declSet        map[string]bool
